@@ -1,7 +1,7 @@
 (* C05 - the statements quoted by Properties.v, assembled from the Proofs* files. *)
 From Coq Require Import List Arith Bool QArith Qcanon Lia.
 From PV Require Import C05.Model C05.Spec C05.ProofsNum C05.ProofsSpec C05.ProofsModel C05.ProofsSearch
-  C05.ProofsMass C05.ProofsExact.
+  C05.ProofsMass C05.ProofsExact C05.ProofsRefine C05.ProofsSanity.
 Import ListNotations.
 Local Open Scope nat_scope.
 
